@@ -586,6 +586,8 @@ def run(ctx):
     r11_10(ctx, fx)
     r11_11(ctx, fx)
     r11_12(ctx, fx)
+    from common import check_no_dropped_futures
+    check_no_dropped_futures(ctx, ctx.facts("default"), "R11.13", r"^protocol::notification::(connection|handle|NotificationProtocol|negotiation)\b.*::\{closure#0\}(::\{closure#\d+\})*$", "notification-protocol", 8)
     ctx.assume("arms ending in debug_assert!(false) diverge in the analysed profile and are not exits (stated beliefs of the developers)")
     ctx.assume("a dropped oneshot shutdown sender also wakes the connection task (Receiver resolves with Err), which closes silently")
     # an open request waiting for its substream must get an outcome when the connection it is opened on dies beside a second one:
